@@ -138,7 +138,7 @@ PROPS['C05'] = dict(
 )
 PROPS['C14'] = dict(
     family='line', needs_scrut_bin=True,
-    theorems=['C14_effective_is_min', 'C14_effective_kind', 'C14_timeout_surfaces', 'C14_no_spurious', 'C14_default_limit'],
+    theorems=['C14_effective_is_min', 'C14_effective_kind', 'C14_timeout_surfaces', 'C14_no_spurious', 'C14_deadline_passed', 'C14_limit_never_lost', 'C14_default_limit'],
     streams=lambda tier: [exec_stream(tier), cli_stream(tier)],
     spec_kinds=['SPEC:C14'], corr_kinds=['DIFF:limit', 'DIFF:exec', 'DIFF:results'],
     case_format=EXEC_FORMAT,
@@ -237,7 +237,8 @@ PROPS['C13'] = dict(
     case_format='B <hex state dir> <hex name> <hex shell expression>|<exit>:<hex of the script the shell received (shell = /bin/cat)>   '
                 'L <hex bytes> <keep_crlf> <strip_ansi>|<hex replace_crlf>|<hex render_output>   G <n CR LF pairs in a child process>|ok/aborted   '
                 'O <m StatefulExecutor+BashRunner | c BashScriptExecutor> <output_stream> <keep_crlf> <strip_ansi> <cmd;cmd: writes <fd><hex>+.../exit code>|<code:hex stdout:hex stderr per test>   '
-                'F <number of test cases> <hex of the stdout the fake shell plays back (salt replaced by a fixed text)>|<code:hex stdout per test | err | panic>',
+                'F <number of test cases> <hex of the stdout the fake shell plays back (salt replaced by a fixed text)>|<code:hex stdout per test | err | panic>   '
+                'C <1 = streams combined>|<exported variables hex name:hex value,...>|<hex shell expression,...>|<hex of the script the fake shell was handed (salt replaced)>',
     rule='B: expressions assembled from scrut\'s own placeholder texts, brace fragments, quotes, newlines, non-ASCII, with state directories/names that themselves contain braces; the rendered script is read back through a shell that echoes its stdin. '
          'L: byte strings over CR, LF, ESC and letters for every keep_crlf/strip setting; G: 300 000 (thorough 1 000 000) CR LF pairs in a child process. '
          'O: 1-3 commands, each 1-3 writes to stdout/stderr of arbitrary bytes (NUL, invalid UTF-8, CRLF, divider/placeholder look-alikes, with and without final newline) and exit codes 0..255, through both executors with real /bin/bash, all output_stream settings. '
@@ -380,9 +381,9 @@ PROPS['C10'] = dict(
     theorems=['C10_outside_preserved', 'C10_tokens_well_shaped', 'C10_nothing_truncated', 'C10_fence_safe', 'C10_update_is_substitution', 'C10_same_commands', 'C10_idempotent'],
     streams=upd_streams,
     spec_kinds=['SPEC:C10'], corr_kinds=['DIFF:update'],
-    case_format='U <hex original document>|<outcome per test: ok/output/code>|<hex document after update | err | panic>|<hex document after a second update with the same outputs>|<hex commands of the original>|<hex commands parsed from the updated document>',
+    case_format='U <hex original document>|<outcome per test: ok/output/code>|<hex document after update | err | panic>|<hex document after a second update with the same outputs>|<hex commands of the original>|<hex commands parsed from the updated document>   K <the same six fields, through the scrut binary; with sh as the test language the words sh and scrut are swapped on fence lines>|lang=<test language> update=<exit,exit> test=<exit of scrut test afterwards>',
     rule='documents rendered from random ASTs of the Markdown grammar (see C06; 1 in 6 cut short so that the last construct is unterminated), every test given one of: its own expectation lines as output (passes when they are plain), a changed output drawn from the collision shapes of C09, a changed exit code; '
-         'the real MarkdownUpdateGenerator is applied, the result parsed by the real parser, re-validated against the same outputs and updated again. Non-trivial: at least one test; distinct by document',
+         'the real MarkdownUpdateGenerator is applied, the result parsed by the real parser, re-validated against the same outputs and updated again. cli-update-twice: documents of prose, blocks in other languages, test blocks with right / wrong expectations and exit codes, comments, inline configuration and detached tests are written to disk, the real `scrut update --replace --assume-yes` runs twice (default language, or --markdown-languages sh with ```scrut blocks as bystanders) and `scrut test` must then pass. Non-trivial: at least one test; distinct by document',
     manifest=dict(text='Machine-checked theorems (Coq): for every token that is not a scrut block update writes back exactly the token lines (the only addition: the missing closing --- of an open front-matter), for all documents since the tokenizer is lossless and all its tokens are well shaped; the regenerated fence has >= 3 backticks and is closed by no line of the new body. Over the document grammar of C06, update of a rendered well-formed document IS the rendering of the same AST with new bodies and fences (C10_update_is_substitution: number, order, comments and inline configuration of blocks kept, everything else untouched), hence by the C06 round trip the updated document parses to the same titles and commands (C10_same_commands), and updating it again with the same bodies returns the same document (C10_idempotent). That a test which now passes gets the same body again (lines of passing tests kept) is evaluated on the implementation for every generated document x outcome vector with the token model as the measuring instrument, and the structural part of generate_update is compared with the model.',
                   technique='Coq proof over the token automaton (losslessness, shape invariant, fence lemma) + differential runs of the real update generator applied twice',
                   note='Partial: that the generator hands the same body to a now-passing test (lines of passing tests kept) is checked on the implementation (oracle); given that, idempotence is proved.'),
